@@ -1,7 +1,7 @@
 (* C12 - the property theorems, nothing else.  Each is closed by [exact] of a lemma proved in Replay/*.v
    and followed by Print Assumptions. *)
 From Icv Require Import Base.Tac Replay.RlBytes Replay.RlModel Replay.RlBytesProofs Replay.RlProofs Replay.RlHistory Replay.RlHistoryProofs Replay.RlObs Replay.RlOracleProofs
-  Replay.RlSize Replay.RlSizeProofs Replay.RlCompact Replay.RlCompactProofs Facts.Facts_c12.
+  Replay.RlSize Replay.RlSizeProofs Replay.RlCompact Replay.RlCompactProofs Replay.RlBoundary Facts.Facts_c12.
 From Coq Require Import Sorting.Sorted.
 Local Open Scope Z_scope.
 
@@ -278,6 +278,50 @@ Print Assumptions C12_record_model_replay.
 Theorem C12_record_model_entries : forall st, rl_x_ok st -> rl_log_entries (rl_x_conc st) = map rl_xe_entry (rl_x_log_entries st).
 Proof. exact rl_x_conc_entries. Qed.
 Print Assumptions C12_record_model_entries.
+
+(* ------------------------------------------ the premises about timestamps, at their boundaries ------------------------------------------ *)
+(* Without "strictly increasing timestamps": what ReplayLog sends is the dynamic rule of its loop - an accessible entry is sent
+   iff its timestamp is above the confirmed position and above the timestamp of every entry sent before it in this replay.
+   Only premise on the log: every file is named later than its entries.  (C12_replayed_general is the special case.) *)
+Theorem C12_replayed_dyn : forall t now ep st,
+  rl_ep_dur ep <> 0 -> rl_name_bound (rl_files st) ->
+  let r := rl_replay t now ep st in
+  rl_msgs (rl_rr_out r) = map rl_e_msg (rl_dyn t (rl_ep_zone ep) (rl_ep_pos ep) (rl_log_entries st)) /\ rl_rr_done r = true.
+Proof. exact rl_replayed_dyn. Qed.
+Print Assumptions C12_replayed_dyn.
+
+(* Recorded finding (known_findings: nonincreasing-timestamps-not-replayed) on the model, as histories from the start of the sender:
+   two relays within one clock reading, two relays with the clock stepped back in between - both events are persisted and owed,
+   the second is not replayed; with a rotation after the step back the file is named earlier than an entry in it and a peer
+   positioned in between is not shown that entry.  C12_replayed excludes these through rl_hclocked (the clock advances before
+   every relay). *)
+Theorem C12_clock_refuted :
+  (let st := rl_hrun rl_w_topo rl_w_hist_equal (rl_init_st 5 [rl_w_ep]) in
+   map rl_e_msg (rl_log_entries st) = [rl_mk_msg 1 10; rl_mk_msg 2 10] /\
+   map rl_e_msg (filter (rl_sel rl_w_topo 1 0) (rl_log_entries st)) = [rl_mk_msg 1 10; rl_mk_msg 2 10] /\
+   rl_msgs (rl_rr_out (rl_replay rl_w_topo 40 rl_w_ep st)) = [rl_mk_msg 1 10]) /\
+  (let st := rl_hrun rl_w_topo rl_w_hist_back (rl_init_st 5 [rl_w_ep]) in
+   map rl_e_msg (rl_log_entries st) = [rl_mk_msg 1 20; rl_mk_msg 2 10] /\
+   rl_msgs (rl_rr_out (rl_replay rl_w_topo 40 rl_w_ep st)) = [rl_mk_msg 1 20]) /\
+  (let st := rl_hrun rl_w_topo rl_w_hist_back_rot (rl_init_st 5 [rl_w_ep]) in
+   map fst (rl_files st) = [11] /\ map rl_e_msg (rl_log_entries st) = [rl_mk_msg 1 20; rl_mk_msg 2 10; rl_mk_msg 3 12] /\
+   rl_msgs (rl_rr_out (rl_replay rl_w_topo 40 (rl_ep_set_pos 15 rl_w_ep) st)) = []).
+Proof. exact rl_clock_refuted. Qed.
+Print Assumptions C12_clock_refuted.
+
+(* "Never overwrite": in every reachable state a rotation - carried out, or silently denied because a file of that name exists
+   (second rotation within the same second) - keeps every entry and every file; a denied one changes nothing but the open time.
+   The form of RotateLogFile this transcribes is a regenerated fact. *)
+Theorem C12_rotate_keeps : forall c now st, rl_hinv c st ->
+  rl_log_entries (rl_rotate_cycle now st) = rl_log_entries st /\
+  (forall f, In f (rl_files st) -> In f (rl_files (rl_rotate_cycle now st))) /\
+  (rl_has_file (rl_files st) ((if rl_lmt st =? 0 then now else rl_lmt st) + 1) = true -> rl_files (rl_rotate_cycle now st) = rl_files st /\ rl_cur (rl_rotate_cycle now st) = rl_cur st).
+Proof. exact rl_rotate_keeps. Qed.
+Print Assumptions C12_rotate_keeps.
+
+Theorem C12_source_forms : f_rl_rotate_never_overwrites = Some true /\ f_rl_replay_skip_le = Some true.
+Proof. exact rl_src_rotate_form. Qed.
+Print Assumptions C12_source_forms.
 
 (* non-vacuity: a concrete two-file log meets the premises of C12_replayed and entries are owed *)
 Example C12_nonvacuous :
